@@ -30,6 +30,9 @@ struct GenOpts {
   bool nets = true;
   bool legalStart = false;    // construct a legal start (row-high cells only)
   bool zeroSizeMovable = false;
+  bool globalDomain = false;  // C06 domain: wide rows, a movable row-high cell, bounded bin count
+  bool anchorNear = false;    // keep the area within 50 row heights of the origin
+  int anchorPct = 0;          // probability (%) of giving every net component a fixed pin
   long long maxCoord = 1LL << 22;
 };
 
@@ -157,6 +160,35 @@ inline std::vector<FreeSeg> specFreeSegments(const CircuitSpec &s) {
   return out;
 }
 
+/// One representative movable cell for every connected component of movable
+/// cells that has no fixed pin (isolated movable cells are components too).
+inline std::vector<int> unanchoredComponents(const CircuitSpec &s) {
+  int n = s.cells.size();
+  std::vector<int> parent(n);
+  for (int i = 0; i < n; ++i) parent[i] = i;
+  std::function<int(int)> find = [&](int x) { return parent[x] == x ? x : parent[x] = find(parent[x]); };
+  for (auto &net : s.nets) {
+    int first = -1;
+    for (int c : net.cells)
+      if (!s.cells[c].fixed) {
+        if (first < 0) first = c;
+        else parent[find(c)] = find(first);
+      }
+  }
+  std::vector<char> anch(n, 0);
+  for (auto &net : s.nets) {
+    bool hasFixed = false;
+    for (int c : net.cells) hasFixed |= s.cells[c].fixed;
+    if (hasFixed)
+      for (int c : net.cells)
+        if (!s.cells[c].fixed) anch[find(c)] = 1;
+  }
+  std::vector<int> out;
+  for (int i = 0; i < n; ++i)
+    if (!s.cells[i].fixed && find(i) == i && !anch[i]) out.push_back(i);
+  return out;
+}
+
 // ---------------------------------------------------------------------------
 inline CircuitSpec genCircuit(Tape &t, const GenOpts &o) {
   CircuitSpec s;
@@ -182,7 +214,7 @@ inline CircuitSpec genCircuit(Tape &t, const GenOpts &o) {
   int opat = t.weighted({3, 2, 2});
   s.labels.insert(opat == 0 ? "rows:alternating" : opat == 1 ? "rows:uniform" : "rows:irregular");
   static const CellOrientation unturned[] = {CellOrientation::N, CellOrientation::FS, CellOrientation::S, CellOrientation::FN};
-  long long minSegW = o.rowsWide ? 4 * rh : wu;
+  long long minSegW = (o.rowsWide || o.globalDomain) ? 4 * rh : wu;
   long long maxSegW = std::max(minSegW, std::min<long long>(40 * rh, 400 * wu));
   long long baseW = t.range(minSegW, maxSegW);
   // extent and origin
@@ -201,7 +233,7 @@ inline CircuitSpec genCircuit(Tape &t, const GenOpts &o) {
   long long C = o.maxCoord;
   long long ox, oy;
   {
-    int oc = t.weighted({3, 2, 2});
+    int oc = t.weighted({3, 2, o.anchorNear ? 0 : 2});
     long long lim = oc == 0 ? 0 : oc == 1 ? std::min<long long>(C / 4, 50 * rh) : C - span - totalH - 8 * rh;
     if (lim < 0) lim = 0;
     ox = t.range(-lim, lim);
@@ -285,6 +317,7 @@ inline CircuitSpec genCircuit(Tape &t, const GenOpts &o) {
         break;
     }
     if (s.scale == 2 && ph > 0 && ph < rh / 2) ph = rh / 2;  // resource bound on the density grid
+    if (ph > 0 && pw * ph >= (1LL << 31)) pw = ((1LL << 31) - 1) / ph;  // domain: every cell area below 2^31
     c.orient = t.flip(1, 4) ? t.choose(0, 7) : 0;
     if (refIsTurn((CellOrientation)c.orient)) {
       c.w = (int)ph, c.h = (int)pw;
@@ -339,7 +372,7 @@ inline CircuitSpec genCircuit(Tape &t, const GenOpts &o) {
     (void)pos;
     for (auto &pc : pieces) {
       CellSpec c;
-      c.w = (int)pc.second;
+      c.w = (int)std::min<long long>(pc.second, ((1LL << 31) - 1) / rh);
       c.h = (int)rh;
       c.kind = "cell:single-row";
       bool mm;
@@ -367,6 +400,7 @@ inline CircuitSpec genCircuit(Tape &t, const GenOpts &o) {
                      : wc == 2 ? rh : std::max<long long>(1, widest);
       if (o.zeroSizeMovable && t.flip(1, 12)) pw = 0;
       long long ph = rh * nrows;
+      if (pw * ph >= (1LL << 31)) pw = ((1LL << 31) - 1) / ph;  // domain: every cell area below 2^31
       if (used + pw * ph > budget && i > 0) break;
       used += pw * ph;
       bool mm;
@@ -387,6 +421,26 @@ inline CircuitSpec genCircuit(Tape &t, const GenOpts &o) {
       s.labels.insert(c.kind);
       s.cells.push_back(c);
     }
+  }
+
+  if (o.globalDomain) {
+    // (i) at least one movable row-high cell of positive area, so that the
+    // library's "standard cell height" (smallest positive cell height) is the
+    // row height at most; (ii) no cell with a tiny positive unrotated height,
+    // which would make the density grid arbitrarily fine (resource bound).
+    bool haveStd = false;
+    for (auto &c : s.cells)
+      if (!c.fixed && c.h == rh && c.w > 0 && !refIsTurn((CellOrientation)c.orient)) haveStd = true;
+    if (!haveStd) {
+      CellSpec c;
+      c.w = (int)std::max<long long>(1, std::min<long long>(wu, widest > 0 ? widest : wu));
+      c.h = (int)rh;
+      c.kind = "cell:single-row";
+      s.cells.push_back(c);
+    }
+    long long minH = std::max<long long>(1, rh / 2);
+    for (auto &c : s.cells)
+      if (c.h > 0 && c.h < minH) c.h = (int)minH;
   }
 
   // 6. initial positions of the movable cells
@@ -468,6 +522,34 @@ inline CircuitSpec genCircuit(Tape &t, const GenOpts &o) {
     }
     if (realWeights) s.labels.insert("nets:real-weights");
     s.labels.insert(s.useSetNets ? "nets:setNets" : "nets:addNet");
+    if (o.anchorPct > 0 && (int)(t.next() % 100) < o.anchorPct) {
+      std::vector<int> reps = unanchoredComponents(s);
+      if (!reps.empty()) {
+        int fixedCell = -1;
+        for (size_t i = 0; i < s.cells.size(); ++i)
+          if (s.cells[i].fixed) fixedCell = (int)i;
+        if (fixedCell < 0) {
+          CellSpec term;
+          term.fixed = true;
+          term.w = term.h = 0;
+          term.obstruction = false;
+          term.x = (int)t.range(areaMinX, areaMaxX);
+          term.y = (int)t.range(areaMinY, areaMaxY);
+          term.kind = "fixed:terminal";
+          s.cells.push_back(term);
+          fixedCell = (int)s.cells.size() - 1;
+        }
+        for (int r : reps) {
+          NetSpec net;
+          net.cells = {r, fixedCell};
+          net.xo = {0, 0};
+          net.yo = {0, 0};
+          net.weight = realWeights ? (float)t.real(0.1, 8.0) : 1.0f;
+          s.nets.push_back(net);
+        }
+        s.labels.insert("nets:anchored-by-construction");
+      }
+    }
   }
   return s;
 }
